@@ -1,6 +1,7 @@
 package drivers
 
 import (
+	"context"
 	"fmt"
 	"os"
 	"sync"
@@ -8,7 +9,10 @@ import (
 	"testing/synctest"
 	"time"
 
+	"github.com/lightninglabs/lightning-node-connect/gbn"
+
 	"verif/harness/gbnrun"
+	"verif/harness/trace"
 	"verif/harness/vnet"
 )
 
@@ -172,6 +176,63 @@ func TestC12Close(t *testing.T) {
 						"leaked": len(run.Leaked)})
 				}
 			}
+		}
+	}
+	// A connection attempt abandoned during its handshake (the peer never
+	// answers, the caller cancels the context): the constructor returns an
+	// error and nothing of it stays behind.  Real time, one at a time (the
+	// inventory is by package, and a leaked goroutine would wedge a bubble).
+	for _, role := range []string{"c", "s"} {
+		for _, at := range []int{60, 700} {
+			desc := map[string]any{"scenario": "abortHandshake", "who": role, "net": "silent", "atMs": at}
+			noteCurrent(dir, desc)
+			rec := trace.New()
+			ctx, cancel := context.WithCancel(context.Background())
+			recv := func(c context.Context) ([]byte, error) {
+				<-c.Done()
+				time.Sleep(50 * time.Millisecond) // the transport reports the cancellation late
+				return nil, c.Err()
+			}
+			send := func(c context.Context, b []byte) error { return nil }
+			done := make(chan error, 1)
+			go func() {
+				var err error
+				var conn *gbn.GoBackNConn
+				opt := gbn.WithTimeoutOptions(gbn.WithHandshakeTimeout(200 * time.Millisecond))
+				if role == "c" {
+					conn, err = gbn.NewClientConn(ctx, 2, send, recv, opt)
+				} else {
+					conn, err = gbn.NewServerConn(ctx, send, recv, opt)
+				}
+				if err == nil && conn != nil {
+					// the server constructor may hand back a connection
+					// whose context is already done: close it
+					conn.Close()
+				}
+				done <- err
+			}()
+			time.Sleep(time.Duration(at) * time.Millisecond)
+			cancel()
+			t0 := time.Now()
+			stuck, ret, es := 0, 0, ""
+			select {
+			case err := <-done:
+				ret = int(time.Since(t0) / time.Millisecond)
+				if err != nil {
+					es = err.Error()
+				}
+			case <-time.After(10 * time.Second):
+				stuck = 1
+			}
+			time.Sleep(1500 * time.Millisecond)
+			leaked := gbnrun.Goroutines("lightning-node-connect/gbn")
+			names := []string{}
+			for _, g := range leaked {
+				names = append(names, gbnrun.LeakName(g))
+			}
+			rec.Emit("abortInventory", "role", role, "atMs", at, "err", es, "retMs", ret,
+				"stuck", stuck, "leaked", len(leaked), "names", names)
+			ts.add("abort", rec.Events(), desc, true, map[string]any{"leaked": len(leaked)})
 		}
 	}
 	ts.close(nil)
